@@ -760,7 +760,7 @@ MODEL_PROJECTS = {
     1: "project('p', version : '1.0', default_options : ['buildtype=release'])\n"
        "x2 = static_library('t2', 'a.c', 'b.c', extra_files : ['c.c'])\n"
        "x1 = executable('t1', 'a.c', install : true, extra_files : [])\n# end\n",
-    2: "project('p')\nx1 = executable('t1', 'a.c', 'b.c', link_with : [], extra_files : [])\n# end\n",
+    2: "project('p')\nx2 = 'z'\nx1 = executable('t1', 'a.c', 'b.c', link_with : [], extra_files : [])\n# end\n",
     3: "project('p')\nexecutable('t1', 'a.c', extra_files : [])\nstatic_library('t1', 'b.c', extra_files : [])\n",
 }
 
